@@ -76,6 +76,12 @@ func (r *runner) run(sc *scenario) {
 	if r.only != nil && !r.only[sc.name] {
 		return
 	}
+	// a change that breaks liveness everywhere would cost a watchdog per scenario: after a number of
+	// liveness failures the remaining scenarios are skipped (the failures found are reported)
+	if r.c.Stats["liveness_failures"] >= 12 {
+		r.c.Stat("scenarios_skipped_after_liveness_failures", 1)
+		return
+	}
 	r.n++
 	t0 := time.Now()
 	lines, direct, quiescent := runScenario(sc)
@@ -100,6 +106,7 @@ func (r *runner) run(sc *scenario) {
 	q := "quiescent"
 	if !quiescent {
 		q = "watchdog"
+		r.c.Stat("liveness_failures", 1)
 	}
 	r.c.Emit("end %d %s", r.n, q)
 	r.c.Stat("scenarios", 1)
